@@ -1571,7 +1571,7 @@ pub fn arith_case(args: &[&str]) -> Res {
     }
     let (op, form) = (args[0], args[1]);
     let shift = matches!(op, "shl" | "shr");
-    if !shift && !matches!(op, "add" | "sub" | "mul") {
+    if !shift && !matches!(op, "add" | "sub" | "mul" | "div" | "rem") {
         return bad();
     }
     let form_ok = if shift { matches!(form, "v" | "r") } else { matches!(form, "rr" | "rv" | "vr" | "vv") };
@@ -1651,6 +1651,8 @@ pub fn arith_case(args: &[&str]) -> Res {
         match op {
             "add" => forms!(+),
             "sub" => forms!(-),
+            "div" => forms!(/),
+            "rem" => forms!(%),
             _ => forms!(*),
         }
     };
